@@ -10,6 +10,7 @@ from __future__ import annotations
 import math
 from fractions import Fraction
 
+from harness import gen_targets
 from harness import common
 from harness import c11 as mfh
 from harness.common import Check, coq_float
@@ -553,6 +554,7 @@ def run(ck: Check) -> None:
     common.assert_repo_imports()
     torch.set_num_threads(1)
     ck.coq_props()
+    gen_targets.run(ck)          # translator tie: Gallina regenerated from the source + coq/gen/EquivC10.v
     thorough = ck.tier == "thorough"
 
     # ---- 1. the tie ------------------------------------------------------------------------------
@@ -850,6 +852,7 @@ def run(ck: Check) -> None:
         "torch.pow on positive bases is the real power function",
         "the floating-point accuracy bound is measured, not proved",
     ]
+    ck.gen_equiv_verdict()
 
 
 def replay(obj) -> bool:
